@@ -13,6 +13,7 @@ From MV Require Rec.Modes.
 From MV Require Toc.Acl.
 From MV Require Schema.Subtype.
 From MV Require Toc.UserView.
+From MV Require Rec.Crash.
 Import ListNotations.
 Local Open Scope string_scope.
 
@@ -30,5 +31,6 @@ Definition dispatch (x : sx) : sx :=
   | L [A "c15"; c] => Toc.Acl.run_c15 c
   | L [A "c13"; c] => Schema.Subtype.run_c13 c
   | L [A "c08"; c] => Toc.UserView.run_c08 c
+  | L [A "c11"; c] => Rec.Crash.run_c11 c
   | _ => sx_bad "dispatch"
   end.
